@@ -207,7 +207,7 @@ def strat_linear(draw):
 # ---------------------------------------------------------------------------
 # normalize_opb / OPB.add_constraint
 
-IN_OPS = ['>=', '<=', '>', '<', '==']
+IN_OPS = ['>=', '<=', '>', '<', '==']      # every operator add_constraint documents
 
 
 def run_normalize(case):
@@ -243,6 +243,20 @@ def run_normalize(case):
     if len(F) != 1 or F.number_of_variables() != nv:
         raise Violation("add_constraint({}) gives {} constraints / {} variables".format(snapshot, len(F), F.number_of_variables()))
     verify(F[0], 'OPB.add_constraint')
+    # the other ways in: the batch method (a list, or a one-shot iterator of rows) and the constructor
+    for how in ('add_constraints_from', 'add_constraints_from(iterator)', 'OPB(constraints=...)'):
+        if how == 'OPB(constraints=...)':
+            F2 = OPB([list(snapshot)])
+            F2.update_variable_number(nv)
+        else:
+            F2 = OPB()
+            F2.update_variable_number(nv)
+            rows = [list(snapshot), list(snapshot)]
+            F2.add_constraints_from(rows if how == 'add_constraints_from' else iter(rows), check=case['check'])
+        if len(F2) not in (1, 2) or F2.number_of_variables() != nv:
+            raise Violation("{}({}) gives {} constraints / {} variables".format(how, snapshot, len(F2), F2.number_of_variables()))
+        for row in F2:
+            verify(row, 'OPB.' + how)
     labels = ['op' + op]
     if any(c < 0 for c, _ in terms):
         labels.append('negative-coefficient')
